@@ -417,6 +417,13 @@ def session_case(rng):
             k = rng.randrange(1, 5)
             lines.append(f'{nm}{i}  "${prev} + ${ref} * {k}";')
             vals[f"{nm}{i}"] = vals[prev] + pv[ref] * k
+        # references and expressions as cells of a matrix (a list inside a list), and in a list of lists of lists
+        last = f"{nm}{n}"
+        ref = rng.choice(["p1", "p2", "p3"])
+        lines.append(f'{nm}mat  (( ${last} 0 ) ( 0 "${ref} * 2" ) ( $nowhere{nm} 1 ));')
+        vals[f"{nm}mat"] = [[vals[last], 0], [0, pv[ref] * 2], [f"$nowhere{nm}", 1]]
+        lines.append(f'{nm}cube  ((( 1 $p1 ) ( "$p2 + 1" 2 )));')
+        vals[f"{nm}cube"] = [[[1, pv["p1"]], [pv["p2"] + 1, 2]]]
         files[nm] = "\n".join(lines) + "\n"
         expect[nm] = dict(pv, **vals)
     ops = []
